@@ -359,6 +359,42 @@ func gen(repo string) (map[string]string, error) {
 	fmt.Fprintf(&b, "/-- allocateIP without requested ranges reuses ONE owned address (`ipInfos[:1]`, map order) -/\ndef bindNoRangeReusesOne : Bool := %s\n", fg.LeanBool(oneOnly))
 	fmt.Fprintf(&b, "/-- allocateIP: the annotation's ipinfos are the IPInfo of the queried addresses, in query order -/\ndef bindAnnotationIsQueriedInfos : Bool := %s\n\n", fg.LeanBool(annot))
 
+	// ---- ByKeyAndIPRanges without ranges: stable (ascending) order
+	bk, err := ip.Fn("crdIpam", "ByKeyAndIPRanges")
+	if err != nil {
+		return nil, err
+	}
+	var noRangeBlk *ast.BlockStmt
+	for _, st := range bk.Body.List {
+		if is, ok := st.(*ast.IfStmt); ok && norm(ip.Src(is.Cond)) == "len(ipranges) != 0" {
+			if eb, ok := is.Else.(*ast.BlockStmt); ok {
+				noRangeBlk = eb
+			}
+		}
+	}
+	if noRangeBlk == nil {
+		return nil, fmt.Errorf("%s: ByKeyAndIPRanges: the branch for a request without ranges (`if len(ipranges) != 0 {…} else {…}`) was not found", ipamFile)
+	}
+	loopAt, sortAt := -1, -1
+	for i, st := range noRangeBlk.List {
+		t := norm(ip.Src(st))
+		if strings.HasPrefix(t, "for _, fip := range ci.allocatedFIPs {") && strings.Contains(t, "if fip.Key == key { ipinfos = append(ipinfos, ci.toFloatingIPInfo(fip)) }") {
+			loopAt = i
+		}
+		if t == "sort.Slice(ipinfos, func(i, j int) bool { return nets.IPToInt(ipinfos[i].IP) < nets.IPToInt(ipinfos[j].IP) })" {
+			sortAt = i
+		}
+	}
+	if loopAt < 0 {
+		return nil, fmt.Errorf("%s: ByKeyAndIPRanges: the map loop of the no-ranges branch has an unknown shape", ipamFile)
+	}
+	for i, st := range noRangeBlk.List {
+		if i != loopAt && i != sortAt {
+			return nil, fmt.Errorf("%s: ByKeyAndIPRanges: unknown statement in the no-ranges branch: %s", ipamFile, norm(ip.Src(st)))
+		}
+	}
+	fmt.Fprintf(&b, "/-- ByKeyAndIPRanges(key, nil): the addresses of the key are sorted ascending (by IPToInt) after the map loop, so\n    `ipInfos[0]` in getSubnet and `ipInfos[:1]` in allocateIP are the same, lowest, address; false = Go map order -/\ndef byKeyNoRangesSorted : Bool := %s\n\n", fg.LeanBool(sortAt > loopAt))
+
 	// ---- toFloatingIPInfo
 	ti, err := ip.Fn("crdIpam", "toFloatingIPInfo")
 	if err != nil {
